@@ -104,23 +104,26 @@ def build(db, R=2, strlen=3, prefix=''):
                     S.constraints.append(printable(t))
                     if attr.is_required and not tbl_nullable:
                         S.constraints.append(z3.Length(t) > 0)      # Required(str) rejects '' on every write path (C08)
-    # discriminators
+    # discriminators.  Class membership follows Python's own subclass relation between the entity classes (issubclass), NOT the
+    # _subclasses_ / _all_bases_ tables pony derives from it - those are part of what is being checked
+    def subclasses_of(e0):
+        return [e for e in ents if e is not e0 and issubclass(e, e0)]
     for ent in ents:
         root = ent._root_
         if root._discriminator_attr_ is not None and (root._subclasses_ or True):
             dattr = root._discriminator_attr_
             info = S.ents[ent.__name__]
-            codes = {e._discriminator_ for e in [ent] + list(ent._subclasses_)}
+            codes = {e._discriminator_ for e in [ent] + subclasses_of(ent)}
             info.discriminator = dattr.columns[0]
             info.codes = codes
             if ent is root:
-                allcodes = {e._discriminator_ for e in [root] + list(root._subclasses_)}
+                allcodes = {e._discriminator_ for e in [root] + subclasses_of(root)}
                 for r in S.tables[info.table]:
                     v = r.cols[dattr.columns[0]]
                     S.constraints.append(z3.Or([v.t == const_term(c) for c in sorted(allcodes, key=repr)]))
                 # columns declared on a subclass are NULL in rows of classes that do not have them
-                for sub in root._subclasses_:
-                    sub_codes = {e._discriminator_ for e in [sub] + list(sub._subclasses_)}
+                for sub in subclasses_of(root):
+                    sub_codes = {e._discriminator_ for e in [sub] + subclasses_of(sub)}
                     for attr in sub._new_attrs_:
                         if not attr.columns or attr.is_collection: continue
                         for r in S.tables[info.table]:
